@@ -10,6 +10,7 @@ from numpy import array
 
 # Local Imports
 from ..data.ephemeris import TruthEphemeris
+from ..data.events import JULIAN_DATE_RESOLUTION
 from ..physics.time.stardate import JulianDate
 from ..physics.transforms.methods import ecef2lla, eci2ecef
 from ..sensors import sensorFactory
@@ -171,8 +172,8 @@ class SensingAgent(Agent):
             event
             for event in self.sensor_time_bias_event_queue
             if (
-                self.julian_date_epoch <= event.end_time_jd
-                and self.julian_date_epoch >= event.start_time_jd
+                self.julian_date_epoch - JULIAN_DATE_RESOLUTION <= event.end_time_jd
+                and self.julian_date_epoch + JULIAN_DATE_RESOLUTION >= event.start_time_jd
             )
         ]
 
